@@ -269,7 +269,10 @@ def parse_youtube_url(url, fix_common_mistakes=True):
         return YoutubeVideo(id=m.group(1), playlist=list_query)
 
     # Parsing
-    parsed = safe_urlsplit(url)
+    try:
+        parsed = safe_urlsplit(url)
+    except ValueError:
+        return
 
     if not is_youtube_url(parsed):
         return
@@ -395,7 +398,12 @@ def parse_youtube_url(url, fix_common_mistakes=True):
             if name in YOUTUBE_CHANNEL_NAME_BLACKLIST:
                 return
 
-            return YoutubeChannel(id=None, name=name.lstrip("@"))
+            name = name.lstrip("@")
+
+            if not name:
+                return
+
+            return YoutubeChannel(id=None, name=name)
 
 
 def extract_video_id_from_youtube_url(url):
